@@ -8,7 +8,7 @@ From Coq Require Import NArith.
 From SV Require Import SM.IndexModel SM.IndexProofs SM.IndexSearchProofs SM.IndexShapes SM.IndexShapeProofs
   SM.IndexUniqueProofs SM.IndexCopySetProofs SM.IndexMaint SM.IndexMaintProofs SM.IndexEquivProofs
   SM.IndexRemove SM.IndexRemoveProofs SM.IndexDel SM.IndexDelProofs SM.IndexListOps SM.IndexListOpsProofs SM.IndexClear SM.IndexClearProofs
-  SM.IndexGlue SM.IndexGlueProofs SM.IndexProperty SM.IndexFold.
+  SM.IndexGlue SM.IndexGlueProofs SM.IndexProperty SM.IndexFold SM.IndexSearchCount.
 From Coq Require Strings.String.
 Notation string := String.string (only parsing).
 
@@ -483,3 +483,27 @@ Proof. exact table_fold_idem. Qed.
 Example c07_table_fold_example : tab_non_ascii tab_example = true ∧ tab_closed tab_example = true ∧
   tab_closed [(7838, [223]); (223, [115; 115])]%N = false ∧ table_fold tab_example [83; 223; 304]%N = [115; 115; 115; 105; 775]%N.
 Proof. exact tab_example_ok. Qed.
+
+(** Round 4: how often VMF.search yields an entity (multiplicity; the set-level theorems above say *which* entities).
+    [search_count] runs the same generated program as [search_sh] and counts the yields of one entity (a set is
+    iterated once per `yield from`, every member once).  For every program that passes the shape obligations and
+    [search_once_ok] (no part is yielded twice on any path), in every state satisfying the invariant: the empty query
+    yields nothing; a `prefix*` query yields each matching entity exactly once; an exact query yields an entity once
+    if its name matches plus once if its class matches — never more than twice, and twice exactly when both match. *)
+Theorem c07_search_multiplicity : ∀ fold, (∀ s, fold (fold s) = fold s) → ∀ sh name e st,
+  search_shape_ok sh = true → search_once_ok sh = true → Inv fold st →
+  search_count fold sh name e st =
+    (if bool_decide (name = []) then 0
+     else if ends_star (fold name) then b2n (bool_decide (e ∈ named fold (is_prefix (removelast (fold name))) true st))
+     else b2n (bool_decide (e ∈ ix_get (by_target st) (Some (fold name)))) + b2n (bool_decide (e ∈ ix_get (by_class st) (fold name)))) ∧
+  search_count fold sh name e st ≤ 2.
+Proof.
+  intros fold Hi sh name e st H1 H2 HI. split; [exact (search_count_spec fold Hi sh name e st H1 H2 HI)|].
+  exact (search_count_le2 fold Hi sh name e st H1 H2 HI).
+Qed.
+Example c07_search_multiplicity_examples :
+  search_once_ok search_shape_today = true ∧
+  search_shape_ok search_shape_class_twice = true ∧ search_once_ok search_shape_class_twice = false ∧
+  let st := run ascii_fold [CreateEnt [97]%N [(tn, [65]%N)]] init in
+  search_count ascii_fold search_shape_today [97]%N 1 st = 2 ∧ search_count ascii_fold search_shape_class_twice [97]%N 1 st = 3.
+Proof. split; [exact search_today_once|exact search_count_examples]. Qed.
